@@ -7,7 +7,8 @@ spelling is not a change, equivalent spellings are mapped to one form here:
   * CONST <op> expr              ->  expr <flipped op> CONST            (`2 > size` == `size < 2`)
   * not (a == b) / not (a in b)  ->  a != b / a not in b  (only the total relations ==, !=, in, not in, is, is not)
   * not not x (in a test)        ->  x
-  * if not c: A else: B          ->  if c: B else: A       (plain else; also the conditional expression)
+  * if not c: A else: B          ->  if c: B else: A       (plain else; also the conditional expression; likewise
+                                     `if a != b: A else: B` -> `if a == b: B else: A` for !=, not in, is not)
   * x = x + e / x = x - e        ->  x += e / x -= e       (plain name; the analyses treat both as an update of x)
 
 Line numbers are kept; nothing else is rewritten.  The repository source is never modified -- this works on the parsed tree."""
@@ -60,6 +61,10 @@ class Canon(ast.NodeTransformer):
         if plain_else and isinstance(n.test, ast.UnaryOp) and isinstance(n.test.op, ast.Not):
             n.test = n.test.operand
             n.body, n.orelse = n.orelse, n.body
+        elif plain_else and isinstance(n.test, ast.Compare) and len(n.test.ops) == 1 and isinstance(n.test.ops[0], (ast.NotEq, ast.NotIn, ast.IsNot)):
+            # a two-armed `if a != b: X else: Y` is spelled with the positive relation
+            n.test = ast.copy_location(ast.Compare(n.test.left, [_NEG[type(n.test.ops[0])]()], n.test.comparators), n.test)
+            n.body, n.orelse = n.orelse, n.body
         return n
 
     def visit_While(self, n):
@@ -72,6 +77,9 @@ class Canon(ast.NodeTransformer):
         n.test = self._test(n.test)
         if isinstance(n.test, ast.UnaryOp) and isinstance(n.test.op, ast.Not):
             n.test = n.test.operand
+            n.body, n.orelse = n.orelse, n.body
+        elif isinstance(n.test, ast.Compare) and len(n.test.ops) == 1 and isinstance(n.test.ops[0], (ast.NotEq, ast.NotIn, ast.IsNot)):
+            n.test = ast.copy_location(ast.Compare(n.test.left, [_NEG[type(n.test.ops[0])]()], n.test.comparators), n.test)
             n.body, n.orelse = n.orelse, n.body
         return n
 
